@@ -1095,6 +1095,25 @@ def fam_control(tier, seed, extra=()):
         "f := (c: bool, v: int | string) -> int { return if c 1 else v }; f(false, \"s\")",
     ]):
         c(f"reject/union_collapse/{k}", prog, Rejected())
+    # the SAME construct executed again with other values: every execution selects afresh (no memory of the previous one)
+    import itertools as _it
+    _CL = ("classify := (v: int | float | string) -> string { return match v { 0 => \"zero\", x: int => \"int\", "
+           "y: int | float => \"number\", => \"other\", } }; ")
+    _ARGS = [("0", "zero"), ("7", "int"), ("1.5", "number"), ("\"a\"", "other")]
+    for n in (2, 3):
+        for k, seq in enumerate(_it.product(range(4), repeat=n)):
+            c(f"repeat/match/{n}/{k}", _CL + "(" + ", ".join(f"classify({_ARGS[i][0]})" for i in seq) + ")",
+              tuple(_ARGS[i][1] for i in seq))
+    _IS = ("pick := (v: int | float | string) -> int { if x: int = v { return 1 } if y: int | float = v { return 2 } return 3 }; ")
+    _IA = [("5", 1), ("2.5", 2), ("\"s\"", 3)]
+    for k, seq in enumerate(_it.product(range(3), repeat=3)):
+        c(f"repeat/ifset/{k}", _IS + "(" + ", ".join(f"pick({_IA[i][0]})" for i in seq) + ")", tuple(_IA[i][1] for i in seq))
+    c("repeat/match_in_loop", "vals := [7, 0, 1.5, 0, \"a\", 7, 0]; out := mut \"\"; for v in vals~ { t := match v { 0 => \"z\", x: int => \"i\", "
+      "y: int | float => \"n\", => \"o\", }; out = *out + t }; *out", "iznzoiz")
+    c("repeat/if_in_loop", "out := mut 0; for v in [1, 5, 2, 7, 0]~ { d := if v > 2 { 1 } else { 2 }; out = *out * 10 + d }; *out", 21212)
+    c("repeat/value_arm_candidates_reevaluated", "f := (v: int, k: int) -> int { return match v { k, k + 1 => 1, => 0, } }; (f(3, 3), f(3, 9), f(10, 9), f(3, 2), f(3, 4))", (1, 0, 1, 1, 0))
+    c("repeat/same_code_twice", "g := (v: int | string) -> int { r := match v { s: string => 1, 0 => 2, i: int => 3, }; return r }; h := (a: int | string, b: int | string) -> (int, int) { return (g(a), g(b)) }; "
+      "(h(5, 0), h(0, 5), h(\"s\", 0), h(5, \"s\"))", ((3, 2), (2, 3), (1, 2), (3, 1)))
     c("accept/union_value_flows", "f := (c: bool, v: int | string) -> int | string { return if c 1 else v }; (f(true, \"s\"), f(false, \"s\"))", (1, "s"))
     c("accept/bare_return_in_void_fn", "n := mut 0; f := (b: bool) { if b { return } n += 1 }; f(true); f(false); *n", 1)
     c("accept/return_void_value", "f := (b: bool) -> () | int { if b { return } return 1 }; (f(true), f(false))", (None, 1))
